@@ -52,8 +52,11 @@ def lm(eqn: nAE,
                         y, 
                         jac=lambda x: eqn.J(x, p).toarray(), 
                         method='lm', 
-                        tol=tol,
-                        options={'maxiter': opt.max_it})
+                        # scipy maps `tol` to minpack's xtol, a *relative step* test (delta <= xtol*|x|),
+                        # not a residual test: let minpack iterate to its floor and test |F| < tol below
+                        options={'maxiter': opt.max_it,
+                                 'xtol': np.finfo(float).eps,
+                                 'ftol': np.finfo(float).eps})
     dF = eqn.F(sol.x, eqn.p)
     if np.max(np.abs(dF)) < tol:
         stats.succeed = True
